@@ -7,6 +7,7 @@ CONSTANTS
   Extra <- NoExtra
   GFirst = TRUE
   SelDet = TRUE
+  RecSteps = FALSE
   LogOn = TRUE
 CONSTRAINT Book
 POSTCONDITION Post
